@@ -1,3 +1,4 @@
+@inclusive.setter
 def spec(self, value):
     duration = self.__duration
     setattr(self.__owner(), self.__attributes.inclusive, value)
